@@ -25,15 +25,14 @@ LEVEL_TEXT = ("Machine-checked Coq theorems for all inputs: the Stern-Brocot rec
               "interval; the code after error_bounds / inside impl_simplest_from_float! is exactly that step; and outside the "
               "open finding classes the as-is model of simplest_from_float (normalisation, ErrorBounds of the six modes, f-+bound) "
               "equals the specification for every base >= 2, mode, precision, significand and exponent, likewise the f32/f64 "
-              "macro for every format and bit pattern with ulp <= 1 that is not a normal power of two (partial there). The open "
-              "defects are modelled as-is and refuted by witnesses.")
+              "macro for every format and every bit pattern with ulp <= 1 (at powers of two the code's interval is wider below f "
+              "but the optimum is proved to be the same). The open defects are modelled as-is and refuted by witnesses.")
 LEVEL_NOTE = ("Trusted: Coq kernel, extraction (FastZ.v), zarith, OCaml driver, Rust harness. Value level (not word level): IBig/UBig "
               "arithmetic, Repr::cmp, RBig add/reduce and the exact FBig add/sub that forms the bounds are taken as Z/Q mathematics "
               "(C01/C02/C04/C03's business) and tied by the correspondence run. NOT proved in general, only re-checked on every case "
               "by the oracle against the shared rounding specification spec_round: that the specified rounding interval "
               "(float_interval_spec / ieee_interval_spec) is exactly the preimage of the float under its rounding rule (each end "
-              "point is included iff it rounds to the float, and the specified answer rounds to the float). Also only compared: "
-              "f32/f64 at normal powers of two (the code's lower bound is ulp/2 instead of ulp/4; answers agree on every run).")
+              "point is included iff it rounds to the float, and the specified answer rounds to the float).")
 TECHNIQUE = "Coq proof (Stern-Brocot minimality, Farey invariant) + as-is models + extracted-spec correspondence run"
 RULE = ("cases = API x input class. simplest_in: end points equal / swapped / both negative / sign-straddling / zero or integer "
         "end points / adjacent convergents of one continued fraction (deep two-sided descent, exact-division branch) / "
